@@ -74,6 +74,72 @@ type c06rTable struct {
 	label   string
 	entries []c06rEntry
 	extraQ  []string
+	onlyQ   []string // when set: the names queried (instead of the standard list + extraQ)
+}
+
+// c06rChainName: the i-th name of a long chain; with wild the name is covered
+// by a wildcard pattern of its own (c06rChainPat).
+func c06rChainName(i int, wild bool) string {
+	if wild {
+		return fmt.Sprintf("x.w%d.chain.test", i)
+	}
+	return fmt.Sprintf("n%d.chain.test", i)
+}
+
+// c06rChainTable: an ACYCLIC chain of n canonical-name hops h0 -> h1 -> ... ->
+// hn (round 7, seeded change C06-M: a bound on the number of names followed),
+// every name queried, i.e. every distance from the end.  end: "addr" the last
+// name has an IPv4 and an IPv6 value; "out" it is outside the table (resolved
+// upstream); "novalue" it has a value of one family only; "cycle" the last
+// name points back at a name in the second half (a cycle after acyclic hops).
+// wildEvery > 0: every wildEvery-th name is covered by a wildcard entry.
+func c06rChainTable(r *vfRand, label string, n int, end string, wildEvery int) (t c06rTable) {
+	t.label = label
+	isWild := func(i int) bool { return wildEvery > 0 && i%wildEvery == wildEvery-1 }
+	name := func(i int) string { return c06rChainName(i, isWild(i)) }
+	for i := 0; i < n; i++ {
+		src := name(i)
+		if isWild(i) {
+			src = "*" + src[1:]
+		}
+		t.entries = append(t.entries, c06rEntry{src, name(i + 1)})
+	}
+	last := name(n)
+	if isWild(n) {
+		last = "*" + last[1:]
+	}
+	switch end {
+	case "addr":
+		t.entries = append(t.entries, c06rEntry{last, "1.1.1.1"}, c06rEntry{last, "::1"})
+	case "novalue":
+		t.entries = append(t.entries, c06rEntry{last, "2.2.2.2"})
+	case "cycle":
+		t.entries = append(t.entries, c06rEntry{last, name(n/2 + r.Intn(n/2+1))})
+	}
+	vfShuffle(r, t.entries)
+	for i := 0; i <= n; i++ {
+		t.onlyQ = append(t.onlyQ, name(i))
+	}
+	return t
+}
+
+// c06rChainTables: the constructed lengths around the bound of C06-M and random
+// ones.
+func c06rChainTables(r *vfRand, lengths []int, nRand, maxRand int) (ts []c06rTable) {
+	for _, n := range lengths {
+		ts = append(ts, c06rChainTable(r, fmt.Sprintf("pre-longchain-%d", n), n, "addr", 0))
+	}
+	ts = append(ts,
+		c06rChainTable(r, "pre-longchain-out", 20, "out", 0),
+		c06rChainTable(r, "pre-longchain-novalue", 19, "novalue", 0),
+		c06rChainTable(r, "pre-longchain-cycle", 30, "cycle", 0),
+		c06rChainTable(r, "pre-longchain-wild", 22, "addr", 3))
+	for i := 0; i < nRand; i++ {
+		n := 1 + r.Intn(maxRand)
+		ts = append(ts, c06rChainTable(r, "rand-longchain", n,
+			vfPick(r, []string{"addr", "addr", "out", "novalue", "cycle"}), vfPick(r, []int{0, 0, 2, 5})))
+	}
+	return ts
 }
 
 func c06rPrelude() []c06rTable {
@@ -606,6 +672,65 @@ func c06rCanonCoveredNoValue(tbl []c06rEntry, asked string, qt uint16) bool {
 	return matched
 }
 
+// c06rHasCycle: is there a CNAME cycle of length >= 2 (entries followed by
+// pattern coverage; an entry onto the name itself is no edge)?
+func c06rHasCycle(tbl []c06rEntry) bool {
+	next := func(n string) (out []string) {
+		for _, e := range tbl {
+			a := strings.ToLower(e.ans)
+			if c06rIsCnameAns(e.ans) && a != n && c06rMatches(e.dom, n) {
+				out = append(out, a)
+			}
+		}
+		return out
+	}
+	colour := map[string]int{}
+	var visit func(n string) bool
+	visit = func(n string) bool {
+		switch colour[n] {
+		case 1:
+			return true
+		case 2:
+			return false
+		}
+		colour[n] = 1
+		for _, m := range next(n) {
+			if visit(m) {
+				return true
+			}
+		}
+		colour[n] = 2
+		return false
+	}
+	for _, e := range tbl {
+		if c06rIsCnameAns(e.ans) && visit(strings.ToLower(e.ans)) {
+			return true
+		}
+	}
+	return false
+}
+
+// c06rChainCut: in a table without a CNAME cycle nothing stops the chase at a
+// name that a canonical-name entry still covers (unless an entry onto that
+// very name covers it, #4016): a CNAME is followed through further rewrites,
+// whatever the length of the chain.
+func c06rChainCut(tbl []c06rEntry, canon string) (cut bool, by string) {
+	if canon == "" || c06rHasCycle(tbl) {
+		return false, ""
+	}
+	canon = strings.ToLower(canon)
+	for _, e := range tbl {
+		if !c06rIsCnameAns(e.ans) || !c06rMatches(e.dom, canon) {
+			continue
+		}
+		if strings.ToLower(e.ans) == canon {
+			return false, ""
+		}
+		cut, by = true, e.dom+" -> "+e.ans
+	}
+	return cut, by
+}
+
 // c06rAddrSource: a locally answered address is the value of the most
 // specific entry for the finally resolved name: of an exact entry when the
 // name has an exact value of the family or an exact "A"/"AAAA" entry of
@@ -684,6 +809,13 @@ func c06rMonitor(tbl []c06rEntry, name string, qt uint16, o c06rObs) (ok bool, k
 			return false, "upstream-error", "upstream failure reported for a name the script does not fail"
 		}
 		return true, "", ""
+	}
+	if len(o.res.Answer) > 0 {
+		if cn, isC := o.res.Answer[0].(*dns.CNAME); isC {
+			if cut, by := c06rChainCut(tbl, c06rTrim(cn.Target)); cut {
+				return false, "chain-cut", fmt.Sprintf("the answer's CNAME ends at %q although the entry %s leads further and the table has no CNAME cycle (a CNAME is followed through further rewrites, whatever the length of the chain)", c06rTrim(cn.Target), by)
+			}
+		}
 	}
 	matched, cname, anyExc, hasVal := false, false, false, false
 	answers := map[string]bool{}
@@ -853,6 +985,22 @@ func TestVerifC06Resp(t *testing.T) {
 	for i := 0; i < nRand; i++ {
 		tables = append(tables, c06rRandTable(rnd.Fork(uint64(i))))
 	}
+	// long chains (round 7): lengths around and far beyond any plausible
+	// bound, every name of the chain queried; spread over the run so that no
+	// single evaluation shard gets all of them
+	{
+		chains := c06rChainTables(rnd.Fork(0xC4A1), []int{16, 17, 18, 33}, out.Scale(5, 150), out.Scale(40, 64))
+		nPre := len(tables) - nRand
+		step := max(1, nRand/(len(chains)+1))
+		var mixed []c06rTable
+		for i, tb := range tables {
+			mixed = append(mixed, tb)
+			if k := i - nPre; k >= 0 && (k+1)%step == 0 && len(chains) > 0 {
+				mixed, chains = append(mixed, chains[0]), chains[1:]
+			}
+		}
+		tables = append(mixed, chains...)
+	}
 	qr := rnd.Fork(0xC06)
 	hungTables := 0
 	for ti, tb := range tables {
@@ -885,12 +1033,19 @@ func TestVerifC06Resp(t *testing.T) {
 		monOK, monMsg, monKind, monQ := true, "", "", ""
 		nontrivial, hung := false, false
 		hosts := append(append([]string{}, c06rQuery...), tb.extraQ...)
-		for _, h := range hosts {
+		if tb.onlyQ != nil {
+			hosts = tb.onlyQ
+		}
+		for hi, h := range hosts {
 			if h == "" || strings.HasPrefix(h, "*") {
 				continue
 			}
 			third := vfPick(qr, []uint16{dns.TypeTXT, dns.TypeCNAME, dns.TypeHTTPS})
-			for _, qt := range []uint16{dns.TypeA, dns.TypeAAAA, third} {
+			qtypes := []uint16{dns.TypeA, dns.TypeAAAA, third}
+			if tb.onlyQ != nil && hi%8 != 0 {
+				qtypes = qtypes[:1] // long chains: every name for A, every eighth for all types
+			}
+			for _, qt := range qtypes {
 				if hung {
 					break
 				}
